@@ -29,3 +29,15 @@ func VerifLocLess(aHas bool, aLine int32, aIdx int, aName string, bHas bool, bLi
 	}
 	return optionsByLocation{mk(aHas, aLine, aIdx, aName), mk(bHas, bLine, bIdx, bName)}.Less(0, 1)
 }
+
+type verifKind struct {
+	protoreflect.FieldDescriptor
+	k protoreflect.Kind
+}
+
+func (v verifKind) Kind() protoreflect.Kind { return v.k }
+
+// VerifMarshalSingular is the real marshalSingular for a scalar of the given kind (not enums).
+func VerifMarshalSingular(kind protoreflect.Kind, val protoreflect.Value) (string, bool) {
+	return marshalSingular(verifKind{k: kind}, val)
+}
